@@ -862,6 +862,13 @@ func main() {
 		"hostile inputs: rejecting more than the non-backward pointers (in-segment targets, header targets, reserved label types, names > 255 bytes) is allowed; accepting them is allowed if the content agrees with a literal reading",
 		"non-termination is decided on 20 s of process CPU inside one decoder call in a child process; stack exhaustion with the child's stack capped at 64 MiB")
 
+	// race side run (./check builds this monitor with -race): only the workloads in which goroutines
+	// use the library at the same time; the detector's reports are filed by Finish
+	if mon.SideRace() {
+		concurrent()
+		r.Finish()
+	}
+
 	// 1. names
 	for i, n := range boundaryNames() {
 		nameLevel(n, "b")
